@@ -405,6 +405,40 @@ def run_sequences(seqs, workdir, tag="gen", binary=None, impl_env=None, expect=F
     return out
 
 
+def run_with_impl(seqs, impl_fn, workdir, tag):
+    """Like run_sequences, but the implementation side is a Python function (used for process-level engines that run
+    the real binary): impl_fn(op_line) -> result line."""
+    os.makedirs(workdir, exist_ok=True)
+    ops_path = os.path.join(workdir, tag + ".ops")
+    impl_path = os.path.join(workdir, tag + ".impl")
+    flat = []
+    for name, ops in seqs:
+        flat.append("reset")
+        flat.extend(ops)
+    with open(ops_path, "w") as f:
+        f.write("\n".join(flat) + "\n")
+    with open(impl_path, "w") as f:
+        for o in flat:
+            f.write(("ok" if o == "reset" else impl_fn(o)) + "\n")
+    impl_lines = open(impl_path).read().split("\n")[:-1]
+    chk = run_check(ops_path, impl_path)
+    out, i = [], 0
+    for name, ops in seqs:
+        i += 1
+        r = SeqResult(name, ops)
+        for k in range(len(ops)):
+            st, model, spec = chk[i + k]
+            r.impl.append(impl_lines[i + k])
+            r.status.append(st)
+            if st != "OK":
+                r.diffs.append((k, model, impl_lines[i + k]))
+            for sp in spec:
+                r.spec.append((k, sp))
+        i += len(ops)
+        out.append(r)
+    return out
+
+
 def run_one(ops, workdir, tag="one", binary=None, impl_env=None):
     return run_sequences([("one", ops)], workdir, tag, binary=binary, impl_env=impl_env)[0]
 
